@@ -60,6 +60,9 @@ enum Who {
 struct OpId {
     call: Call,
     salt: u8,
+    /// scheduled for ANOTHER target contract (same function, arguments, predecessor, salt): such
+    /// an operation must never authorize a call on the controller itself
+    foreign: bool,
 }
 
 #[derive(Clone, Copy, Debug, PartialEq, Eq)]
@@ -152,13 +155,13 @@ impl Inst {
     }
     fn pred_of(&self, op: OpId) -> BytesN<32> {
         if op.call == Call::Delay7AfterDelay5 {
-            self.ids[&OpId { call: Call::Delay5, salt: 1 }].clone()
+            self.ids[&OpId { call: Call::Delay5, salt: 1, foreign: false }].clone()
         } else {
             zero(&self.e)
         }
     }
     fn meta_val(&self, call: Call, m: &Meta) -> OperationMeta {
-        let right = self.pred_of(OpId { call, salt: m.salt });
+        let right = self.pred_of(OpId { call, salt: m.salt, foreign: false });
         let pred = if m.right_pred { right } else { salt(&self.e, 0xEE) };
         OperationMeta { predecessor: pred, salt: salt(&self.e, m.salt), executor: m.executor.map(|w| self.who(w)) }
     }
@@ -173,8 +176,9 @@ impl Tlc {
         }
     }
     fn op_ids(&self) -> Vec<OpId> {
-        let mut v: Vec<OpId> = self.calls().iter().map(|c| OpId { call: *c, salt: 1 }).collect();
-        v.push(OpId { call: Call::Delay0, salt: 2 });
+        let mut v: Vec<OpId> = self.calls().iter().map(|c| OpId { call: *c, salt: 1, foreign: false }).collect();
+        v.push(OpId { call: Call::Delay0, salt: 2, foreign: false });
+        v.push(OpId { call: Call::Delay0, salt: 1, foreign: true });
         v
     }
 
@@ -183,8 +187,8 @@ impl Tlc {
         match op {
             Op::Schedule { op, delay, by } => {
                 let (f, args) = i.call_args(op.call);
-                let a: SVec<Val> =
-                    (i.c.clone(), Symbol::new(e, f), args, i.pred_of(*op), salt(e, op.salt), *delay, i.who(*by)).into_val(e);
+                let target = if op.foreign { i.x.clone() } else { i.c.clone() };
+                let a: SVec<Val> = (target, Symbol::new(e, f), args, i.pred_of(*op), salt(e, op.salt), *delay, i.who(*by)).into_val(e);
                 call_signed(e, &i.c, "schedule_op", a, &[i.who(*by)]).is_ok()
             }
             Op::Cancel { op, by } => {
@@ -352,10 +356,10 @@ impl World for Tlc {
         order.sort_by_key(|o| (o.call == Call::Delay7AfterDelay5, *o));
         for op in order {
             let (f, args) = i.call_args(op.call);
-            let a: SVec<Val> = (i.c.clone(), Symbol::new(&i.e, f), args, i.pred_of(op), salt(&i.e, op.salt)).into_val(&i.e);
+            let target = if op.foreign { i.x.clone() } else { i.c.clone() };
+            let a: SVec<Val> = (target, Symbol::new(&i.e, f), args, i.pred_of(op), salt(&i.e, op.salt)).into_val(&i.e);
             let v = view(&i.e, &i.c, "hash_operation", a).expect("hash_operation");
             let id = BytesN::<32>::try_from_val(&i.e, &v).unwrap();
-            assert!(!i.ids.values().any(|x| *x == id), "operation ids collide");
             i.ids.insert(op, id);
         }
         let m = self.observe(&i).expect("observe");
@@ -442,6 +446,18 @@ impl World for Tlc {
     fn step(&self, i: &mut Inst, m: &mut Model, op: &Op, cx: &mut StepCtx<Self>) -> Result<bool, Violation> {
         let now = envx::now(&i.e);
         let pre = m.clone();
+        {
+            let mut seen: Vec<(&OpId, &BytesN<32>)> = vec![];
+            for (o, id) in &i.ids {
+                if let Some((o2, _)) = seen.iter().find(|(_, x)| *x == id) {
+                    return Err(Violation::new(
+                        "operation-id-binds-all-fields",
+                        format!("operations {:?} and {:?} differ (target / function / arguments / predecessor / salt) but hash to the same id", o2, o),
+                    ));
+                }
+                seen.push((o, id));
+            }
+        }
         let ok = self.exec(i, op);
         if !ok {
             return Ok(false);
@@ -449,7 +465,7 @@ impl World for Tlc {
         let ready = |st: &Model, o: OpId| -> bool {
             match st.ops.get(&o) {
                 Some(OpState::Scheduled(l)) => {
-                    now >= *l && (o.call != Call::Delay7AfterDelay5 || st.ops.get(&OpId { call: Call::Delay5, salt: 1 }) == Some(&OpState::Done))
+                    now >= *l && (o.call != Call::Delay7AfterDelay5 || st.ops.get(&OpId { call: Call::Delay5, salt: 1, foreign: false }) == Some(&OpState::Done))
                 }
                 _ => false,
             }
@@ -471,7 +487,7 @@ impl World for Tlc {
             Op::Admin { call, sig, executor_signs } => {
                 ensure!(pre.admin_is_self, "admin-renounced", "{:?} succeeded after admin was renounced", call);
                 // which scheduled operations stand for this very call?
-                let candidates: Vec<OpId> = pre.ops.keys().filter(|o| o.call == *call).cloned().collect();
+                let candidates: Vec<OpId> = pre.ops.keys().filter(|o| o.call == *call && !o.foreign).cloned().collect();
                 let consumed: Vec<OpId> = candidates.iter().filter(|o| ready(&pre, **o)).cloned().collect();
                 ensure!(
                     !consumed.is_empty(),
@@ -490,7 +506,7 @@ impl World for Tlc {
                 let Some(us) = used_salt else {
                     return Err(Violation::new("admin-call-without-descriptor", format!("{:?} took effect with payload {:?}", call, sig)));
                 };
-                let target = OpId { call: *call, salt: us };
+                let target = OpId { call: *call, salt: us, foreign: false };
                 ensure!(consumed.contains(&target), "admin-call-wrong-operation", "{:?} consumed descriptor salt {} which is not a ready operation", call, us);
                 x.ops.insert(target, OpState::Done);
                 if !pre.executors.is_empty() {
